@@ -6,7 +6,7 @@ from ..layouts import zoo
 from ..nd import prod
 from ..plans import sum_plan, plan_term
 from ..pyfloat import FP, finite
-from .numcommon import mk_num_case, parse_num, model_ints, fval
+from .numcommon import mk_num_case, parse_num, model_ints, fval, mk_alias_case, alias_pairs
 from .c06 import tab_term
 
 SEL1 = {"entropy": 7}
@@ -64,6 +64,17 @@ class C10(Prop):
             yield mk_num_case("kl_divergence", et, [(shape, p, la), (shape, q, lb)], "", grp=grp, norm=norm, role="KL")
             yield mk_num_case("cross_entropy", et, [(shape, p, la), (shape, q, lb)], "", grp=grp, norm=norm, role="Hpq")
             yield mk_num_case("kl_divergence", et, [(shape, p, la), (shape, p, lb)], "", grp=grp, norm=norm, role="KLself")
+        # p and q as two views into ONE allocation (identical, transposed, stepped against prefix, reversed)
+        for rep in range(8 if tier == "quick" else 300):
+            et = "f64" if rep % 3 else "f32"
+            nd = rng.range(1, 2)
+            side = rng.range(2, 4)
+            shape = [side] * nd
+            for (la, lb) in alias_pairs(shape, rng)[:3]:
+                pbuf = prob_vec(la.parent_len(), rng, et, False, rng.choice([0, 0, 1]))
+                grp = "al%d_%d" % (rep, rng.below(10 ** 9))
+                yield mk_alias_case("kl_divergence", et, pbuf, la, lb, "", grp=grp, norm=False, role="KL")
+                yield mk_alias_case("cross_entropy", et, pbuf, la, lb, "", grp=grp, norm=False, role="Hpq")
 
     def parse(self, case):
         parse_num(case)
